@@ -1392,6 +1392,10 @@ def oracle(case):
             if (name == "join" and res == "ok" and wrapper in ("clustalo", "muscle3", "muscle5", "mafft")
                     and tool in ("garbage_empty", "garbage_missing", "garbage_ragged", "garbage_length")):
                 v.append((f"C20/result/garbage-accepted/{tool}", f"join() succeeded although the program's output was {tool} ({case['ops']})"))
+            if name == "join" and not refused and res in ("ERR:EvalFailure", "ERR:SubprocessError") and tool in ("ok", "reorder"):
+                v.append((f"C20/result/valid-output-rejected/{wrapper}",
+                          f"join() raised {res[4:]} although the program exited with 0 and wrote complete, valid output "
+                          f"({nseq} sequences) ({case['ops']})"))
             if name == "join" and res == "ok" and tool in FAILING_EXIT:
                 v.append((f"C20/result/failing-exit-accepted/{tool}",
                           f"join() succeeded although the program ended with a failing exit status ({tool}) ({case['ops']})"))
